@@ -36,6 +36,7 @@ func newSelfSeed(file string, index Index) (*selfSeed, error) {
 // written here will not be usable until all earlier chunks have been written as
 // well.
 func (s *selfSeed) add(segment IndexSegment) {
+	verifYield("selfseed.add")
 	s.mu.Lock()
 	defer s.mu.Unlock()
 
